@@ -184,6 +184,8 @@ enum Op {
     Overflow,
     BroadcastSeg(usize),
     SkipSeq(usize),
+    /// the session is reset (connection lost and re-established) before segment i
+    Reset(usize),
 }
 
 fn ops_for(n: usize) -> Vec<Op> {
@@ -207,6 +209,9 @@ fn ops_for(n: usize) -> Vec<Op> {
         v.push(Op::Interleave(i));
         v.push(Op::BroadcastSeg(i));
         v.push(Op::SkipSeq(i));
+        if i >= 1 {
+            v.push(Op::Reset(i));
+        }
     }
     v.push(Op::ClearFir);
     v.push(Op::Overflow);
@@ -214,6 +219,29 @@ fn ops_for(n: usize) -> Vec<Op> {
 }
 
 fn apply(op: &Op, segs: &mut Vec<Segment>, rx: usize) {
+    // positions refer to real segments; reset markers (empty data) are skipped
+    let real: Vec<usize> = segs.iter().enumerate().filter(|(_, s)| !s.data.is_empty()).map(|(k, _)| k).collect();
+    let at = |i: usize| -> usize { real.get(i).copied().unwrap_or(usize::MAX) };
+    let op = &match op {
+        Op::Drop(i) => Op::Drop(at(*i)),
+        Op::Dup(i) => Op::Dup(at(*i)),
+        Op::Swap(i) => {
+            // swap only two real neighbours
+            if at(*i) != usize::MAX && at(*i + 1) == at(*i) + 1 {
+                Op::Swap(at(*i))
+            } else {
+                Op::Swap(usize::MAX - 1)
+            }
+        }
+        Op::Readdress(i) => Op::Readdress(at(*i)),
+        Op::SetFir(i) => Op::SetFir(at(*i)),
+        Op::BroadcastSeg(i) => Op::BroadcastSeg(at(*i)),
+        Op::SkipSeq(i) => Op::SkipSeq(at(*i).min(segs.len())),
+        Op::Reset(i) => Op::Reset(at(*i).min(segs.len())),
+        Op::Interleave(i) => Op::Interleave(at(*i).min(segs.len())),
+        Op::ClearFir => Op::ClearFir,
+        Op::Overflow => Op::Overflow,
+    };
     match op {
         Op::Drop(i) => {
             if *i < segs.len() {
@@ -237,7 +265,7 @@ fn apply(op: &Op, segs: &mut Vec<Segment>, rx: usize) {
             }
         }
         Op::ClearFir => {
-            if let Some(s) = segs.first_mut() {
+            if let Some(s) = segs.iter_mut().find(|s| !s.data.is_empty()) {
                 s.data[0] &= !transport::FIR;
             }
         }
@@ -255,11 +283,11 @@ fn apply(op: &Op, segs: &mut Vec<Segment>, rx: usize) {
         }
         Op::Overflow => {
             // continue the series without FIN until it exceeds the receive buffer
-            if let Some(last) = segs.last_mut() {
+            if let Some(last) = segs.iter_mut().rev().find(|s| !s.data.is_empty()) {
                 last.data[0] &= !transport::FIN;
                 let mut seq = last.data[0] & 0x3F;
                 let src = last.src;
-                let mut total: usize = segs.iter().map(|s| s.data.len() - 1).sum();
+                let mut total: usize = segs.iter().filter(|s| !s.data.is_empty()).map(|s| s.data.len() - 1).sum();
                 while total <= rx {
                     seq = (seq + 1) & 0x3F;
                     let mut d = vec![seq];
@@ -277,8 +305,13 @@ fn apply(op: &Op, segs: &mut Vec<Segment>, rx: usize) {
                 segs[*i].broadcast = true;
             }
         }
+        Op::Reset(i) => {
+            // marker: an empty segment stands for "reset the reader here"
+            let at = (*i).min(segs.len());
+            segs.insert(at, Segment { src: 0, dst: 0, broadcast: false, data: vec![] });
+        }
         Op::SkipSeq(i) => {
-            for s in segs.iter_mut().skip(*i) {
+            for s in segs.iter_mut().skip(*i).filter(|s| !s.data.is_empty()) {
                 let h = s.data[0];
                 s.data[0] = (h & 0xC0) | ((h & 0x3F).wrapping_add(1) & 0x3F);
             }
@@ -344,6 +377,10 @@ impl CaseSpace for Mutations {
         let mut model = Reassembler::new(*rx);
         let mut expected = Vec::new();
         for s in &segs {
+            if s.data.is_empty() {
+                model.reset();
+                continue;
+            }
             if let Some(d) = model.push(s) {
                 expected.push((d.src, s.broadcast, d.data));
             }
@@ -351,11 +388,24 @@ impl CaseSpace for Mutations {
         // implementation
         let mut r = TransportReaderSeam::new(false, OWN, false, true, false, *rx, false);
         let mut stream = Vec::new();
+        let mut out = Vec::new();
+        let mut err = None;
         for s in &segs {
+            if s.data.is_empty() {
+                r.handle.push(&stream);
+                stream.clear();
+                let (o, e) = r.drain();
+                out.extend(o);
+                err = err.or(e);
+                r.reset();
+                continue;
+            }
             stream.extend(encode(s));
         }
         r.handle.push(&stream);
-        let (out, err) = r.drain();
+        let (o, e) = r.drain();
+        out.extend(o);
+        let err = err.or(e);
         res.transitions += segs.len();
         let got: Vec<(u16, bool, Vec<u8>, u32)> = out
             .iter()
@@ -419,7 +469,7 @@ pub fn check(tier: &str) -> i32 {
     c.cases(&build_mutations(tier));
     c.finish(
         "model_checking",
-        "writer: fragment lengths (every multiple of 249 +-1, 1, 2, 2047, 2048 quick; every length 1..=2048 thorough) x starting transport sequence numbers (6 quick incl. the wrap; all 64 thorough), output compared byte for byte with the reference segmenter and fed to the real transport Reader (link Layer + Assembler) whole, per frame, split inside the first and last frame and bytewise; reader: all applications of <= 2 (3 for 250/498/747-byte fragments in the thorough tier) operators from {drop, duplicate, swap, re-address, clear FIR, set FIR, interleave a second sender, overflow the buffer, turn a segment into a broadcast, skip a sequence number} at the structural positions of the segment streams of fragments of 1/249/250/498/747/2048 bytes into receive buffers 249/250/498/2048, each followed by a clean fragment; deliveries must equal the reference reassembler's exactly (bytes, source, broadcast class) with consecutive fragment ids; non-trivial = at least one operator applied or a multi-chunk round trip; distinct = distinct input",
+        "writer: fragment lengths (every multiple of 249 +-1, 1, 2, 2047, 2048 quick; every length 1..=2048 thorough) x starting transport sequence numbers (6 quick incl. the wrap; all 64 thorough), output compared byte for byte with the reference segmenter and fed to the real transport Reader (link Layer + Assembler) whole, per frame, split inside the first and last frame and bytewise; reader: all applications of <= 2 (3 for 250/498/747-byte fragments in the thorough tier) operators from {drop, duplicate, swap, re-address, clear FIR, set FIR, interleave a second sender, overflow the buffer, turn a segment into a broadcast, skip a sequence number, reset the session before a segment} at the structural positions of the segment streams of fragments of 1/249/250/498/747/2048 bytes into receive buffers 249/250/498/2048, each followed by a clean fragment; deliveries must equal the reference reassembler's exactly (bytes, source, broadcast class) with consecutive fragment ids; non-trivial = at least one operator applied or a multi-chunk round trip; distinct = distinct input",
         &["operators are applied at the first, second, middle, last-but-one and last segment"],
         serde_json::json!({}),
     )
